@@ -13,8 +13,10 @@ TRUSTED = ["translator gen/cfun.py + gen/math_gen.py + gen/math_varargs.py (clan
            "variadic arguments modelled as the list of arguments passed (va_arg = head of the list)",
            "meaning given to __builtin_{add,mul}_overflow, __builtin_c[lt]z* and the IEEE-754 ordered comparisons on float/double bit patterns (CSem.fcmp) in Model/CSem.lean",
            "hand model Model/MathAsm.lean of the x86-64 inline assembly (tied by the correspondence run in four calling contexts at -O2 and by the literal shape table: template, operand constraints, clobbers, surrounding C of every asm statement re-extracted each run, theorem asm_shapes_as_modelled; written registers pinned, theorem asm_registers_pinned)",
-           "signed shift/overflow UB given two's-complement meaning"]
-ASSUMPTIONS = ["x86-64 SysV: size_t = uint64_t; default build configuration resolves un-prefixed calls to the gcc_overflow/gcc_builtin variants"]
+           "signed shift/overflow UB given two's-complement meaning",
+           "an out-parameter never stored through / a local read before assignment is modelled by the non-zero sentinels CSem.unwritten / CSem.indeterminate (the C harness initialises out-parameters with the same sentinel)"]
+ASSUMPTIONS = ["only the SIZE_BITS == 64 branches are compiled, translated and proved; every SIZE_BITS == 32 branch is tied textually to its proved 64-bit sibling (must be its u64 -> u32 image, gen/math_gen.py check_size_bits_branches)",
+               "x86-64 SysV: size_t = uint64_t; default build configuration resolves un-prefixed calls to the gcc_overflow/gcc_builtin variants"]
 RULE = ("every (variant, function) of math*.inl/clock.inl on the boundary operand product {0,1,2^k-1,2^k,2^k+1,MAX-1,MAX,MAX/b,MAX/b+1} "
         "plus PRNG operands; float/double min/max on the special-value product (zeros, subnormals, 1 ulp neighbours, infinities, NaNs, both signs) plus structured PRNG bit patterns; "
         "timestamp conversion with and without the optional remainder pointer; source/math.c aws_add_size_checked_varargs with num in {0,1,2,3,5,8}, 0-2 surplus arguments, exact fit and "
